@@ -1,4 +1,376 @@
-import PieModel.Build.Pie
+/-
+Property C18: if a resource checker returns an error while a dependency is being validated, in a
+top-down check or during bottom-up scheduling, the dependency is treated as inconsistent, so its
+task is re-executed or scheduled, and the error is reported through the session's
+dependency-check errors.  The error is never swallowed, never turns into reuse of the cached
+output, and never aborts the build.
+
+The invariant proofs are in `PieModel/Build/Proofs/{ErrTrace,TopDownExt,BottomUpExt}.lean`.
+-/
+import PieModel.Props.C09
+import PieModel.Build.Proofs.BottomUpExt
+
 namespace PieModel
-theorem C18_placeholder : True := trivial
+open Sess SessL
+
+variable (sem : Sem) (body : Nat → Prog)
+
+/-! ### one step: error ⇒ inconsistent / scheduled, error recorded, no abort -/
+
+/-- `d` is a read or write dependency on `r` with checker `c` and stamp `stamp`. -/
+def Dep.isRes (d : Dep) (r c : Nat) (stamp : Stamp) : Prop :=
+  d = .read r c stamp ∨ d = .write r c stamp
+
+/-- Top-down: a failing checker makes the dependency inconsistent (`ok false`: the loop stops,
+the remaining dependencies are not looked at), the error is appended to the session's errors and
+reported in `check_resource_end`. -/
+theorem C18_td_error_reported_and_inconsistent (f : Nat) (s : Sess) (d : Dep) (r c : Nat)
+    (stamp : Stamp) (ds : List Dep) (e : Int) (hd : d.isRes r c stamp)
+    (he : sem.rcheck c (s.content r) stamp = .error e) :
+    tdCheckDeps sem body (f + 1) s (d :: ds) =
+      ({ (s.emit (.checkResStart r c stamp)).emit (.checkResEnd r c stamp (.error e)) with
+          errors := s.errors ++ [e] }, .ok false) := by
+  rcases hd with rfl | rfl
+  · rw [C09_check_uses_own_read, he]
+  · rw [C09_check_uses_own_write, he]
+
+/-- Bottom-up: a failing checker schedules the task and records the error. -/
+theorem C18_bu_error_scheduled (s : Sess) (tnode t : Nat) (d : Dep) (r c : Nat) (stamp : Stamp)
+    (e : Int) (hd : d.isRes r c stamp) (ht : s.store.taskOf tnode = some t)
+    (he : sem.rcheck c (s.content r) stamp = .error e) :
+    trySchedule sem s tnode d =
+      { (((s.emit (.checkReadStart t c stamp)).emit (.checkReadEnd t c stamp (.error e))).emit
+          (.scheduleTask t)) with errors := s.errors ++ [e], queue := queueAdd s.queue tnode } ∧
+    tnode ∈ (trySchedule sem s tnode d).queue ∧
+    (trySchedule sem s tnode d).errors = s.errors ++ [e] := by
+  have key : trySchedule sem s tnode d =
+      { (((s.emit (.checkReadStart t c stamp)).emit (.checkReadEnd t c stamp (.error e))).emit
+          (.scheduleTask t)) with errors := s.errors ++ [e], queue := queueAdd s.queue tnode } := by
+    rcases hd with rfl | rfl
+    · rw [C09_trySchedule_spec sem s tnode t r c stamp ht, he]
+    · rw [C09_trySchedule_write_spec sem s tnode t r c stamp ht, he]
+  refine ⟨key, ?_, ?_⟩
+  · rw [key]; simp [C09_mem_queueAdd]
+  · rw [key]
+
+/-- The step in which a checker fails *returns* (it does not abort), with verdict "inconsistent",
+and the error is in the session's errors afterwards. -/
+theorem C18_error_step_is_ok (f : Nat) (s : Sess) (d : Dep) (r c : Nat)
+    (stamp : Stamp) (ds : List Dep) (e : Int) (hd : d.isRes r c stamp)
+    (he : sem.rcheck c (s.content r) stamp = .error e) :
+    (tdCheckDeps sem body (f + 1) s (d :: ds)).2 = .ok false ∧
+    e ∈ (tdCheckDeps sem body (f + 1) s (d :: ds)).1.errors ∧
+    .checkResEnd r c stamp (.error e) ∈ (tdCheckDeps sem body (f + 1) s (d :: ds)).1.trace := by
+  rw [C18_td_error_reported_and_inconsistent sem body f s d r c stamp ds e hd he]
+  simp
+
+/-- The kinds of abort are the six Rust panics of the model; a checker error is not among the
+causes: the only places where `rcheck` is called (`tdCheckDeps`, `trySchedule`) turn an error into
+a verdict (`C18_error_step_is_ok`, `C18_bu_error_scheduled`; `trySchedule` cannot abort at all —
+it returns a `Sess`). -/
+theorem C18_checker_error_never_aborts (k : Abort) :
+    k = .cyclic ∨ k = .hidden ∨ k = .overlap ∨ k = .taskPanic ∨ (∃ n, k = .bug n) ∨ k = .outOfFuel := by
+  cases k <;> simp
+
+/-! ### the error never turns into reuse -/
+
+/-- The loop reports "consistent" only if the head's checker said `ok true`. -/
+theorem C18_reuse_requires_ok_head (f : Nat) (s s' : Sess) (d : Dep) (r c : Nat) (stamp : Stamp)
+    (ds : List Dep) (hd : d.isRes r c stamp)
+    (h : tdCheckDeps sem body (f + 1) s (d :: ds) = (s', .ok true)) :
+    sem.rcheck c (s.content r) stamp = .ok true ∧
+    tdCheckDeps sem body f (resCheckEvents s r c stamp (.ok true)) ds = (s', .ok true) := by
+  have key : tdCheckDeps sem body (f + 1) s (d :: ds) =
+      match sem.rcheck c (s.content r) stamp with
+      | .ok true => tdCheckDeps sem body f (resCheckEvents s r c stamp (.ok true)) ds
+      | .ok false => (resCheckEvents s r c stamp (.ok false), .ok false)
+      | .error e =>
+        ({ resCheckEvents s r c stamp (.error e) with errors := s.errors ++ [e] }, .ok false) := by
+    rcases hd with rfl | rfl
+    · exact tdCheckDeps_read sem body f s r c stamp ds
+    · exact tdCheckDeps_write sem body f s r c stamp ds
+  rw [key] at h
+  split at h
+  · rename_i hr; exact ⟨hr, h⟩
+  · cases h
+  · cases h
+
+/-- In general: if the loop over a task's dependencies reports "consistent" — the only way the
+cached output is reused — then *every* resource dependency in the list was checked, in some
+intermediate state `sᵢ` of that run, by its own checker with result `ok true`; none erred. -/
+theorem C18_reuse_implies_every_check_ok (ds : List Dep) (f : Nat) (s s' : Sess)
+    (h : tdCheckDeps sem body f s ds = (s', .ok true)) :
+    ∀ d ∈ ds, ∀ r c stamp, d.isRes r c stamp →
+      ∃ sᵢ : Sess, s.Ext sᵢ ∧ (resCheckEvents sᵢ r c stamp (.ok true)).Ext s' ∧
+        sem.rcheck c (sᵢ.content r) stamp = .ok true := by
+  induction ds generalizing f s with
+  | nil => intro d hd; cases hd
+  | cons d₀ ds ih =>
+    cases f with
+    | zero => simp only [tdCheckDeps] at h; cases h
+    | succ f =>
+      intro d hd r c stamp hres
+      -- what the head does, and where the tail starts
+      have tail : ∃ s₁ : Sess, s.Ext s₁ ∧ tdCheckDeps sem body f s₁ ds = (s', .ok true) ∧
+          ∀ r c stamp, d₀.isRes r c stamp → sem.rcheck c (s.content r) stamp = .ok true ∧
+            s₁ = resCheckEvents s r c stamp (.ok true) := by
+        cases d₀ with
+        | reserved => simp only [tdCheckDeps] at h; cases h
+        | require t' c' stamp' =>
+          rw [C09_check_uses_own_require] at h
+          split at h
+          · cases h
+          · rename_i s₁ out heq
+            split at h
+            · refine ⟨_, ?_, h, ?_⟩
+              · exact ((Ext.emit s _ rfl).trans ((ext_tdMake sem body _ _ _).of_fst heq)).trans
+                  (Ext.emit _ _ rfl)
+              · intro r c stamp hr; rcases hr with hr | hr <;> cases hr
+            · cases h
+        | read r' c' stamp' =>
+          obtain ⟨h₁, h₂⟩ := C18_reuse_requires_ok_head sem body f s s' _ r' c' stamp' ds (.inl rfl) h
+          refine ⟨_, ext_resCheckEvents_ok s r' c' stamp' true, h₂, ?_⟩
+          intro r c stamp hr
+          rcases hr with hr | hr <;> cases hr
+          exact ⟨h₁, rfl⟩
+        | write r' c' stamp' =>
+          obtain ⟨h₁, h₂⟩ := C18_reuse_requires_ok_head sem body f s s' _ r' c' stamp' ds (.inr rfl) h
+          refine ⟨_, ext_resCheckEvents_ok s r' c' stamp' true, h₂, ?_⟩
+          intro r c stamp hr
+          rcases hr with hr | hr <;> cases hr
+          exact ⟨h₁, rfl⟩
+      obtain ⟨s₁, e₁, htail, hhead⟩ := tail
+      rcases List.mem_cons.mp hd with rfl | hmem
+      · obtain ⟨hr, rfl⟩ := hhead r c stamp hres
+        exact ⟨s, Ext.refl s, (ext_tdCheckDeps sem body f _ ds).of_fst htail, hr⟩
+      · obtain ⟨sᵢ, a, b, c'⟩ := ih f s₁ htail d hmem r c stamp hres
+        exact ⟨sᵢ, e₁.trans a, b, c'⟩
+
+/-- A failing checker after a prefix of consistent resource dependencies: the loop stops there
+with "inconsistent"; the error is recorded. -/
+theorem C18_checkDeps_error (pre post : List Dep) (d : Dep) (r c : Nat) (stamp : Stamp) (e : Int)
+    (f : Nat) (s : Sess) (hf : pre.length < f) (hpre : ∀ d' ∈ pre, resConsistent sem s d')
+    (hd : d.isRes r c stamp) (he : sem.rcheck c (s.content r) stamp = .error e) :
+    tdCheckDeps sem body f s (pre ++ d :: post) =
+      ({ s with
+          trace := s.trace ++ checkEvents pre ++
+            [.checkResStart r c stamp, .checkResEnd r c stamp (.error e)],
+          errors := s.errors ++ [e] }, .ok false) := by
+  induction pre generalizing f s with
+  | nil =>
+    obtain ⟨f, rfl⟩ : ∃ f', f = f' + 1 := ⟨f - 1, by simp at hf; omega⟩
+    rw [List.nil_append, C18_td_error_reported_and_inconsistent sem body f s d r c stamp post e hd he]
+    simp [checkEvents]
+  | cons d₀ pre ih =>
+    obtain ⟨f, rfl⟩ : ∃ f', f = f' + 1 := ⟨f - 1, by simp at hf; omega⟩
+    have hd₀ := hpre d₀ (by simp)
+    have hf' : pre.length < f := by simp at hf; omega
+    have hpre' : ∀ (s₂ : Sess), s₂.fs = s.fs → ∀ d' ∈ pre, resConsistent sem s₂ d' :=
+      fun s₂ h₂ d' hd' => (C09_resConsistent_congr sem s s₂ h₂ d').mpr (hpre d' (by simp [hd']))
+    cases d₀ with
+    | reserved => exact absurd hd₀ (by simp [resConsistent])
+    | require t c stamp => exact absurd hd₀ (by simp [resConsistent])
+    | read r₀ c₀ stamp₀ =>
+      simp only [resConsistent] at hd₀
+      rw [List.cons_append, C09_check_uses_own_read, hd₀]
+      simp only
+      rw [ih f ((s.emit (.checkResStart r₀ c₀ stamp₀)).emit (.checkResEnd r₀ c₀ stamp₀ (.ok true))) hf'
+        (hpre' _ rfl) he]
+      simp [checkEvents]
+    | write r₀ c₀ stamp₀ =>
+      simp only [resConsistent] at hd₀
+      rw [List.cons_append, C09_check_uses_own_write, hd₀]
+      simp only
+      rw [ih f ((s.emit (.checkResStart r₀ c₀ stamp₀)).emit (.checkResEnd r₀ c₀ stamp₀ (.ok true))) hf'
+        (hpre' _ rfl) he]
+      simp [checkEvents]
+
+/-- When `make_task_consistent` goes to the execute branch, everything it does afterwards extends
+the state in which the body starts. -/
+theorem C18_exec_extends (f : Nat) (s s₁ : Sess) (t : Nat) (st : Store) (node : Nat)
+    (hn : s.store.getOrCreateTaskNode t = (st, node)) (hnc : node ∉ s.consistent)
+    (hc : tdCheck sem body f { s with store := st } node = (s₁, .ok none)) :
+    (execStart s₁ node t).Ext (tdMake sem body (f + 1) s t).1 := by
+  rw [C09_inconsistent_triggers_execution sem body f s s₁ t st node hn hnc hc]
+  have h := ext_tdRun sem body f (execStart s₁ node t) (body t)
+  split
+  · rename_i heq; exact h.of_fst heq
+  · rename_i s₂ o heq
+    exact ((h.of_fst heq).trans (Ext.emit s₂ (.executeEnd t o) rfl)).congr_right
+      (by simp [execFinish]) (by simp [execFinish]) (by simp [execFinish])
+
+/-- No reuse on error: if the check of a dependency of task `t` errs (the dependencies before it
+being consistent resource dependencies), the cached output `o` is *not* returned: the task is
+reset and its body runs, with the error already recorded. -/
+theorem C18_no_reuse_on_error (f : Nat) (s : Sess) (t : Nat) (st : Store) (node : Nat) (o : Int)
+    (pre post : List Dep) (d : Dep) (r c : Nat) (stamp : Stamp) (e : Int)
+    (hn : s.store.getOrCreateTaskNode t = (st, node)) (hnc : node ∉ s.consistent)
+    (ho : st.taskOutput node = some o) (hdeps : st.depsFrom node = pre ++ d :: post)
+    (hf : pre.length < f) (hpre : ∀ d' ∈ pre, resConsistent sem s d')
+    (hd : d.isRes r c stamp) (he : sem.rcheck c (s.content r) stamp = .error e) :
+    let s₁ : Sess := { s with
+      store := st,
+      trace := s.trace ++ checkEvents pre ++
+        [.checkResStart r c stamp, .checkResEnd r c stamp (.error e)],
+      errors := s.errors ++ [e] }
+    (tdMake sem body (f + 2) s t =
+      match tdRun sem body (f + 1) (execStart s₁ node t) (body t) with
+      | (s₂, .abort a) => (s₂, .abort a)
+      | (s₂, .ok o') => (execFinish s₂ s.cur node t o', .ok o')) ∧
+    (∃ evs, (tdMake sem body (f + 2) s t).1.trace = s₁.trace ++ .executeStart t :: evs) ∧
+    (∃ more, (tdMake sem body (f + 2) s t).1.errors = s.errors ++ e :: more) := by
+  intro s₁
+  have hdp := C18_checkDeps_error sem body pre post d r c stamp e f { s with store := st } hf
+    (fun d' hd' => (C09_resConsistent_congr sem s _ rfl d').mpr (hpre d' hd')) hd he
+  have hc : tdCheck sem body (f + 1) { s with store := st } node = (s₁, .ok none) := by
+    rw [C09_tdCheck_eq sem body f _ node o ho]
+    simp only [hdeps, hdp]
+    rfl
+  refine ⟨C09_inconsistent_triggers_execution sem body (f + 1) s s₁ t st node hn hnc hc,
+    C09_inconsistent_trace sem body (f + 1) s s₁ t st node hn hnc hc, ?_⟩
+  obtain ⟨evs, _, herr⟩ := (C18_exec_extends sem body (f + 1) s s₁ t st node hn hnc hc).events
+  exact ⟨errorsOf evs, by rw [herr]; simp [execStart, s₁]⟩
+
+/-! ### the error is never swallowed: `errors` is exactly the errors of the trace -/
+
+/-- Every step of the session — whether it returns or aborts — extends the trace and adds to
+`errors` exactly the errors of the failed checks among the new events. -/
+theorem C18_errors_delta_doRead (s : Sess) (r c : Nat) : s.Ext (doRead sem s r c).1 := ext_doRead sem s r c
+theorem C18_errors_delta_doWrite (s : Sess) (r c : Nat) (v : Option Int) :
+    s.Ext (doWrite sem s r c v).1 := ext_doWrite sem s r c v
+theorem C18_errors_delta_doWrote (s : Sess) (r c : Nat) (v : Option Int) :
+    s.Ext (doWrote sem s r c v).1 := ext_doWrote sem s r c v
+theorem C18_errors_delta_reserveRequire (s : Sess) (dst : Nat) : s.Ext (reserveRequire s dst).1 :=
+  ext_reserveRequire s dst
+theorem C18_errors_delta_updateRequire (s : Sess) (dst t c : Nat) (stamp : Stamp) :
+    s.Ext (updateRequire s dst t c stamp).1 := ext_updateRequire s dst t c stamp
+
+/-- All five top-down functions, for every fuel. -/
+theorem C18_errors_delta_topDown (f : Nat) :
+    (∀ (s : Sess) t c, s.Ext (tdRequire sem body f s t c).1) ∧
+    (∀ (s : Sess) t, s.Ext (tdMake sem body f s t).1) ∧
+    (∀ (s : Sess) n, s.Ext (tdCheck sem body f s n).1) ∧
+    (∀ (s : Sess) ds, s.Ext (tdCheckDeps sem body f s ds).1) ∧
+    (∀ (s : Sess) p, s.Ext (tdRun sem body f s p).1) := td_ext sem body f
+
+theorem C18_errors_delta_scheduling (s : Sess) :
+    (∀ tnode d, s.Ext (trySchedule sem s tnode d)) ∧
+    (∀ r, s.Ext (scheduleAffectedBy sem s r)) ∧
+    (∀ node t out, s.Ext (scheduleAfterExec sem s node t out)) :=
+  ⟨ext_trySchedule sem s, ext_scheduleAffectedBy sem s, ext_scheduleAfterExec sem s⟩
+
+/-- All six mutual bottom-up functions, for every fuel. -/
+theorem C18_errors_delta_bottomUp (f : Nat) :
+    (∀ (s : Sess) t c, s.Ext (buRequire sem body f s t c).1) ∧
+    (∀ (s : Sess) t n, s.Ext (buMake sem body f s t n).1) ∧
+    (∀ (s : Sess) t n, s.Ext (buExec sem body f s t n).1) ∧
+    (∀ (s : Sess) n, s.Ext (buExecAndSchedule sem body f s n).1) ∧
+    (∀ (s : Sess) n, s.Ext (buRequireNow sem body f s n).1) ∧
+    (∀ (s : Sess) p, s.Ext (buRun sem body f s p).1) := bu_ext sem body f
+
+theorem C18_errors_delta_session (fuel : Nat) (s : Sess) :
+    (s.Ext (buExecuteScheduled sem body fuel s).1) ∧
+    (∀ t, s.Ext (sessionRequire sem body fuel s t).1) ∧
+    (∀ changed, s.Ext (bottomUpBuild sem body fuel s changed).1) :=
+  ⟨ext_buExecuteScheduled sem body fuel s, ext_sessionRequire sem body fuel s,
+    ext_bottomUpBuild sem body fuel s⟩
+
+/-- `Ext` preserves the invariant `errors = errorsOf trace`. -/
+theorem C18_errInv_of_ext {s s' : Sess} (h : s.Ext s') (hi : s.errors = errorsOf s.trace) :
+    s'.errors = errorsOf s'.trace := h.errInv hi
+
+/-- The invariant `errors = errorsOf trace` is preserved by every function of the model, for every
+fuel, whether the call returns or aborts (the state component is the state at the abort point). -/
+theorem C18_errInv_preserved (f : Nat) (s : Sess) (hi : s.errors = errorsOf s.trace) :
+    (∀ r c, (doRead sem s r c).1.ErrInv) ∧
+    (∀ r c v, (doWrite sem s r c v).1.ErrInv) ∧
+    (∀ r c v, (doWrote sem s r c v).1.ErrInv) ∧
+    (∀ dst, (reserveRequire s dst).1.ErrInv) ∧
+    (∀ dst t c stamp, (updateRequire s dst t c stamp).1.ErrInv) ∧
+    (∀ t c, (tdRequire sem body f s t c).1.ErrInv) ∧
+    (∀ t, (tdMake sem body f s t).1.ErrInv) ∧
+    (∀ n, (tdCheck sem body f s n).1.ErrInv) ∧
+    (∀ ds, (tdCheckDeps sem body f s ds).1.ErrInv) ∧
+    (∀ p, (tdRun sem body f s p).1.ErrInv) ∧
+    (∀ tnode d, (trySchedule sem s tnode d).ErrInv) ∧
+    (∀ r, (scheduleAffectedBy sem s r).ErrInv) ∧
+    (∀ node t out, (scheduleAfterExec sem s node t out).ErrInv) ∧
+    (∀ t c, (buRequire sem body f s t c).1.ErrInv) ∧
+    (∀ t n, (buMake sem body f s t n).1.ErrInv) ∧
+    (∀ t n, (buExec sem body f s t n).1.ErrInv) ∧
+    (∀ n, (buExecAndSchedule sem body f s n).1.ErrInv) ∧
+    (∀ n, (buRequireNow sem body f s n).1.ErrInv) ∧
+    (∀ p, (buRun sem body f s p).1.ErrInv) ∧
+    (buExecuteScheduled sem body f s).1.ErrInv ∧
+    (∀ t, (sessionRequire sem body f s t).1.ErrInv) ∧
+    (∀ changed, (bottomUpBuild sem body f s changed).1.ErrInv) := by
+  have hi' : s.ErrInv := hi
+  refine ⟨fun r c => (ext_doRead sem s r c).errInv hi', fun r c v => (ext_doWrite sem s r c v).errInv hi',
+    fun r c v => (ext_doWrote sem s r c v).errInv hi', fun d => (ext_reserveRequire s d).errInv hi',
+    fun d t c st => (ext_updateRequire s d t c st).errInv hi',
+    fun t c => (ext_tdRequire sem body f s t c).errInv hi', fun t => (ext_tdMake sem body f s t).errInv hi',
+    fun n => (ext_tdCheck sem body f s n).errInv hi', fun ds => (ext_tdCheckDeps sem body f s ds).errInv hi',
+    fun p => (ext_tdRun sem body f s p).errInv hi', fun n d => (ext_trySchedule sem s n d).errInv hi',
+    fun r => (ext_scheduleAffectedBy sem s r).errInv hi',
+    fun n t o => (ext_scheduleAfterExec sem s n t o).errInv hi',
+    fun t c => (ext_buRequire sem body f s t c).errInv hi', fun t n => (ext_buMake sem body f s t n).errInv hi',
+    fun t n => (ext_buExec sem body f s t n).errInv hi',
+    fun n => (ext_buExecAndSchedule sem body f s n).errInv hi',
+    fun n => (ext_buRequireNow sem body f s n).errInv hi', fun p => (ext_buRun sem body f s p).errInv hi',
+    (ext_buExecuteScheduled sem body f s).errInv hi', fun t => (ext_sessionRequire sem body f s t).errInv hi',
+    fun ch => (ext_bottomUpBuild sem body f s ch).errInv hi'⟩
+
+theorem C18_errors_delta_op (s : Sess) (op : SessOp) : s.Ext (op.run sem body s) :=
+  ext_op sem body s op
+
+/-- **Exactness.** In a session started with `Pie::new_session`, after any sequence of
+`require`s and bottom-up builds (returning or aborting), the session's dependency-check errors are
+exactly the errors of the failed checks in its tracker stream, in order: no error is swallowed and
+none is invented. -/
+theorem C18_errors_exact (p : PieSt) (ops : List SessOp) :
+    (ops.foldl (SessOp.run sem body) p.newSession).errors =
+      errorsOf (ops.foldl (SessOp.run sem body) p.newSession).trace := by
+  exact (ext_ops sem body p.newSession ops).errInv rfl
+
+/-- In particular an error reported in the trace is in `errors`. -/
+theorem C18_error_in_trace_is_reported (p : PieSt) (ops : List SessOp) (r c : Nat) (stamp : Stamp)
+    (e : Int)
+    (h : .checkResEnd r c stamp (.error e) ∈ (ops.foldl (SessOp.run sem body) p.newSession).trace ∨
+         .checkReadEnd r c stamp (.error e) ∈ (ops.foldl (SessOp.run sem body) p.newSession).trace) :
+    e ∈ (ops.foldl (SessOp.run sem body) p.newSession).errors := by
+  rw [C18_errors_exact]
+  simp only [errorsOf, List.mem_flatMap]
+  rcases h with h | h
+  · exact ⟨_, h, by simp [errOfEv]⟩
+  · exact ⟨_, h, by simp [errOfEv]⟩
+
+/-! ### non-vacuity -/
+
+open DecEqAux
+
+/-- Task 0 reads resource 7 with checker `FailWhen(3)` (id 13: `check` fails with error 3 while
+the content is 3) and returns the content. -/
+def c18Tbl : List (Nat × Script) := [(0, .read 7 13 (.ret (.var 0)))]
+
+def c18Run1 := sessionRequire stdSem (bodyOf c18Tbl) 100 (PieSt.newSession { fs := [(7, 5)] }) 0
+def c18Pie2 : PieSt := c18Run1.1.toPie.setContent 7 (some 3)
+def c18Run2 := sessionRequire stdSem (bodyOf c18Tbl) 100 c18Pie2.newSession 0
+def c18Run3 := bottomUpBuild stdSem (bodyOf c18Tbl) 100 c18Pie2.newSession [7]
+
+/-- Top-down: the checker fails, the error is reported, the task is executed (no reuse of the
+cached 5), and the build returns. -/
+example : c18Run2.2 = .ok 3 ∧ c18Run2.1.errors = [3] ∧ c18Run2.1.trace =
+    [.buildStart, .requireStart 0 4,
+     .checkResStart 7 13 (.optInt (some 5)), .checkResEnd 7 13 (.optInt (some 5)) (.error 3),
+     .executeStart 0, .readStart 7 13, .readEnd 7 13 (.optInt (some 3)), .executeEnd 0 3,
+     .requireEnd 0 4 .unit 3, .buildEnd] := by decide +kernel
+
+/-- Bottom-up: the checker fails, the error is reported, the task is scheduled and executed. -/
+example : c18Run3.2 = .ok () ∧ c18Run3.1.errors = [3] ∧ c18Run3.1.trace.take 8 =
+    [.schedResStart 7, .checkReadStart 0 13 (.optInt (some 5)),
+     .checkReadEnd 0 13 (.optInt (some 5)) (.error 3), .scheduleTask 0, .schedResEnd 7,
+     .buildStart, .executeStart 0, .readStart 7 13] := by decide +kernel
+
+example : errorsOf c18Run2.1.trace = [3] := by decide +kernel
+
 end PieModel
